@@ -65,10 +65,11 @@ def families(tier):
 
 
 def digest(bi):
-    return [sorted((ac.rkey(x.nt1), ac.rkey(x.nt2), x.lw.value, x.saenger.value if x.saenger else None) for x in bi.basePairs),
-            sorted((ac.rkey(x.nt1), ac.rkey(x.nt2), x.topology.value if x.topology else None) for x in bi.stackings),
-            sorted((ac.rkey(x.nt1), ac.rkey(x.nt2), x.br.value if x.br else None) for x in bi.baseRiboseInteractions),
-            sorted((ac.rkey(x.nt1), ac.rkey(x.nt2), x.bph.value if x.bph else None) for x in bi.basePhosphateInteractions)]
+    k = lambda nt: ac.skey(ac.rkey(nt))
+    return [sorted((k(x.nt1), k(x.nt2), x.lw.value, x.saenger.value if x.saenger else "") for x in bi.basePairs),
+            sorted((k(x.nt1), k(x.nt2), x.topology.value if x.topology else "") for x in bi.stackings),
+            sorted((k(x.nt1), k(x.nt2), x.br.value if x.br else "") for x in bi.baseRiboseInteractions),
+            sorted((k(x.nt1), k(x.nt2), x.bph.value if x.bph else "") for x in bi.basePhosphateInteractions)]
 
 
 def check_writers(s, out):
